@@ -53,7 +53,7 @@ static Outcome in_child(const std::function<void(Res&)>& body) {
     close(p[0]);
     struct rlimit rl; rl.rlim_cur = rl.rlim_max = 1536UL << 20; setrlimit(RLIMIT_AS, &rl);
     rl.rlim_cur = rl.rlim_max = 0; setrlimit(RLIMIT_CORE, &rl);
-    alarm(4);       // a call that does not return is recorded as a crash (SIGALRM)
+    alarm(15);      // a call that does not return is recorded as a crash (SIGALRM); generous: the machine may be loaded
     Res r{p[1]};
     try { body(r); }
     catch (const std::invalid_argument&) { r.put("I"); }
